@@ -21,7 +21,7 @@ SIGS = ['', 'i', 'a{sv}', '(ii)', 'aai', 'y' * 127, 'd' * 128, 'ai' * 100, 'x' *
 KEY_INTS = {'y': [0, 255, 7], 'n': [-32768, 32767, -1], 'q': [0, 65535, 256],
             'i': [-2**31, 2**31 - 1, 0], 'u': [0, 2**32 - 1, 65536],
             'x': [-2**63, 2**63 - 1, -1], 't': [0, 2**64 - 1, 2**32], 'h': [0, 1, 2]}
-KEY_STRS = ['', 'k', 'é€', 'key2']
+KEY_STRS = ['', 'k', 'é€', 'key2', '\ufeffb']      # the last one starts with U+FEFF (a BOM to some codecs)
 VARIANT_INNER = ['y', 'b', 'n', 'q', 'i', 'u', 'x', 't', 'd', 's', 'o', 'g',
                  'ai', '(is)', 'a{sy}', 'ay', 'as', '(y(bx))', 'av', 'aas']
 
@@ -328,6 +328,6 @@ def witness_values(kinds, which):
         elif kind == 'fd':
             out.append([0, 2 ** 31 - 1, 3, 7 + i][which % 4])
         elif kind == 'str':
-            base = ['a', 'é', '€', '\U0001f600'][(which + i) % 4]
+            base = ['a', 'é', '\ufeff', '\U0001f600'][(which + i) % 4]      # U+FEFF: 3 bytes, and a BOM to some codecs
             out.append(base * info)
     return tuple(out)
